@@ -321,24 +321,34 @@ Definition offset_size (d : Z) : Z :=
   if (-128 <=? d) && (d <=? 127) then 1
   else if (-32768 <=? d) && (d <=? 32767) then 2 else 4.
 
-(* the form is chosen from the rel8 displacement rel-2 (fix in /repo: it used to be chosen from rel) *)
+(* x86gen_jmp.go / x86gen_call.go after the fix in /repo: the displacement length follows the operand size.
+   32-bit mode: always the rel32 forms (E9 cd, 0F 8x cd, E8 cd) - the sizes pass 1 reserves; 16-bit mode: rel8 when the
+   displacement rel-2 fits, rel16 when it fits 16 bits, else the 66h-prefixed rel32 forms with the prefix counted in the
+   instruction length. *)
+Definition jump_form (m : mode) (rel : Z) : Z := match m with M32 => 4 | M16 => offset_size (rel - 2) end.
+
 Definition gen_jmp (m : mode) (rel : Z) : list byte :=
-  match offset_size (rel - 2) with
+  match jump_form m rel with
   | 1 => [235; (rel - 2) mod 256]
   | 2 => 233 :: le 2 (rel - 3)
-  | _ => (match m with M16 => [102] | M32 => [] end) ++ 233 :: le 4 (rel - 5)
+  | _ => match m with M16 => 102 :: 233 :: le 4 (rel - 6) | M32 => 233 :: le 4 (rel - 5) end
   end.
 
-Definition gen_jcc (opc : Z) (rel : Z) : list byte :=
-  match offset_size (rel - 2) with
+Definition gen_jcc (m : mode) (opc : Z) (rel : Z) : list byte :=
+  match jump_form m rel with
   | 1 => [opc; (rel - 2) mod 256]
   | 2 => 15 :: (opc + 16) mod 256 :: le 2 (rel - 4)
-  | _ => 15 :: (opc + 16) mod 256 :: le 4 (rel - 6)
+  | _ => match m with
+         | M16 => 102 :: 15 :: (opc + 16) mod 256 :: le 4 (rel - 7)
+         | M32 => 15 :: (opc + 16) mod 256 :: le 4 (rel - 6)
+         end
   end.
 
-Definition gen_call (rel : Z) : list byte :=
-  let o32 := rel - 5 in
-  if (-32768 <=? o32) && (o32 <=? 32767) then 232 :: le 2 (rel - 3) else 232 :: le 4 o32.
+Definition gen_call (m : mode) (rel : Z) : list byte :=
+  match m with
+  | M16 => if (-32768 <=? rel - 3) && (rel - 3 <=? 32767) then 232 :: le 2 (rel - 3) else 102 :: 232 :: le 4 (rel - 6)
+  | M32 => 232 :: le 4 (rel - 5)
+  end.
 
 Definition in_range (lo hi v : Z) : bool := (lo <=? v) && (v <=? hi).
 
@@ -360,9 +370,9 @@ Definition gen_ocode (m : mode) (st : symtab) (dol : Z) (len : Z) (o : ocode) : 
       | Some d =>
           let rel := d - (dol + len) in
           if String.eqb name "JMP" then Bytes (gen_jmp m rel)
-          else if String.eqb name "CALL" then Bytes (gen_call rel)
+          else if String.eqb name "CALL" then Bytes (gen_call m rel)
           else match lookup name jcc_table with
-               | Some opc => Bytes (gen_jcc opc rel)
+               | Some opc => Bytes (gen_jcc m opc rel)
                | None => BytesDiag []
                end
       end
